@@ -64,8 +64,34 @@ impl TryFrom<&[AST]> for Context {
             context.functions.insert(func.clone());
         });
 
-        context.into_with_primitives()?.into_with_std_lib()
+        let context = context.into_with_primitives()?.into_with_std_lib()?;
+        check_inheritance_acyclic(&context.classes)?;
+        Ok(context)
     }
+}
+
+/// No class may be its own ancestor.
+///
+/// Class lookup follows parents recursively, so a cycle would never terminate.
+fn check_inheritance_acyclic(classes: &HashSet<GenericClass>) -> TypeResult<()> {
+    for class in classes {
+        let mut seen: HashSet<&str> = HashSet::new();
+        let mut ancestors: Vec<&GenericClass> = vec![class];
+        while let Some(ancestor) = ancestors.pop() {
+            for parent in &ancestor.parents {
+                let parent_name = parent.name.variant.name.as_str();
+                if parent_name == class.name.name {
+                    let msg = format!("Cyclic inheritance: {} is its own ancestor", class.name);
+                    return Err(vec![TypeErr::new(class.pos, &msg)]);
+                }
+                if seen.insert(parent_name) {
+                    ancestors.extend(classes.iter().filter(|c| c.name.name == parent_name));
+                }
+            }
+        }
+    }
+
+    Ok(())
 }
 
 pub trait LookupClass<In, Out> {
